@@ -43,6 +43,36 @@ def short_hash(obj):
     return hashlib.sha1(s.encode()).hexdigest()[:12]
 
 
+class BudgetExceeded(BaseException):
+    """The case used far more CPU time than any terminating case can: bounded progress failed."""
+
+
+class cpu_budget:
+    """Context manager: raise BudgetExceeded in the main thread after ``seconds`` of *process CPU
+    time* (ITIMER_VIRTUAL), which - unlike a wall-clock watchdog - does not depend on machine load.
+    Budgets are chosen >= 1000x the cost of an ordinary case, so exceeding one means the code under
+    test loops without end (a definite failure of bounded progress), not slowness."""
+
+    def __init__(self, seconds):
+        self.seconds = seconds
+
+    def __enter__(self):
+        import signal
+
+        def fire(signum, frame):
+            raise BudgetExceeded('more than %ss CPU in one case' % self.seconds)
+        self._old = signal.signal(signal.SIGVTALRM, fire)
+        # repeating: the code under test may swallow the first exception (handlers run under `except BaseException`)
+        signal.setitimer(signal.ITIMER_VIRTUAL, self.seconds, 0.05)
+        return self
+
+    def __exit__(self, *exc):
+        import signal
+        signal.setitimer(signal.ITIMER_VIRTUAL, 0)
+        signal.signal(signal.SIGVTALRM, self._old)
+        return False
+
+
 class Batch:
     def __init__(self, prop, max_samples=3, max_failures=25):
         self.prop = prop
